@@ -233,11 +233,22 @@ func z9Body(sc z9Scenario) func() {
 				}
 			}
 			var err error
+			srv.Down = false
 			if sc.Handler {
 				if ZZPullVia == nil {
 					panic("C09 harness: ZZPullVia not set by main")
 				}
+				if !clean && mcrt.Choose(mcrt.Fault, "registry outage for the whole attempt", "no", "yes") == 1 {
+					// every request is answered 503 until the client gives up after two virtual minutes
+					// (the handler retries temporary errors for as long as the request lives)
+					mcrt.Observe("fault: registry down")
+					srv.Down = true
+					var stop gocontext.CancelFunc
+					ctx, stop = mcrt.WithTimeout(ctx, 2*gotime.Minute)
+					defer stop()
+				}
 				err = ZZPullVia(ctx, reg, z9Name)
+				srv.Down = false
 			} else {
 				err = reg.Pull(ctx, z9Name)
 			}
